@@ -424,7 +424,7 @@ func (c *C05Multi) Run() string {
 
 // ---------------------------------------------------------------- cells
 
-var c05Layouts = []string{"contig", "lazyT", "sliced", "stepsliced", "slicedT", "Tsliced", "picked", "materialized", "clonedview", "physT", "cmraw", "cmconv", "cmraw+sliced", "cmraw+lazyT"}
+var c05Layouts = []string{"contig", "lazyT", "sliced", "stepsliced", "slicedT", "Tsliced", "picked", "pickslice", "materialized", "clonedview", "physT", "cmraw", "cmconv", "cmraw+sliced", "cmraw+lazyT"}
 var c05VecShapes = [][]int{{}, {1}, {3}, {1, 3}, {3, 1}, {1, 1, 3}, {1, 3, 1}, {3, 1, 1}, {1, 1}, {1, 1, 1, 4}, {1, 4, 1, 1}, {2, 1, 3}, {1, 2, 3}, {2, 3, 1}}
 
 func genC05Shape(rt *rapid.T) []int {
